@@ -127,7 +127,7 @@ def alpha_row(row: dict) -> dict:
         "k": "q", "ct": "", "name": "", "lname": "", "hasname": False, "nameok": True, "type": "",
         "count": "none", "tl": False, "lh": False, "media": False, "list": "", "listkind": "",
         "other": False, "filt": False, "hascalc": False, "dyn": "none", "trig": False, "warns": [],
-        "frag": True, "cattrs": [], "tlapp": "field-list",
+        "frag": True, "cattrs": [], "tlapp": "field-list", "refs": [],
     }
     row = dict(row)
     warns = []
@@ -163,6 +163,7 @@ def alpha_row(row: dict) -> dict:
     r["trig"] = bool(row.get("trigger"))
     r["dyn"] = classify_default(row.get("default"), qtype)
     r["cattrs"] = control_attrs(row, qtype, control)
+    r["refs"] = source_refs(row)
     if qtype == "audit":
         r.update(k="audit", warns=warns)
         return r
@@ -244,6 +245,98 @@ def alpha_row(row: dict) -> dict:
     return r
 
 
+def _strings(v):
+    if isinstance(v, str):
+        yield v
+    elif isinstance(v, dict):
+        for x in v.values():
+            yield from _strings(x)
+
+
+def source_refs(row) -> list:
+    """Names referenced with ${...} in the reference-bearing cells of a row (source side of C03)."""
+    names = []
+    for key in ("label", "hint", "guidance_hint", "bind", "default", "choice_filter", "control", "trigger", "instance"):
+        for text in _strings(row.get(key)):
+            for m in RE_REF.finditer(text):
+                if m.group(2) not in names:
+                    names.append(m.group(2))
+    p = str(row.get("parameters", "") or "")
+    for m in RE_REF.finditer(p):
+        if m.group(2) not in names:
+            names.append(m.group(2))
+    t = str(row.get("type", "") or "")
+    for m in RE_REF.finditer(t):
+        if m.group(2) not in names:
+            names.append(m.group(2))
+    return names
+
+
+RE_OUT = re.compile(
+    r"^(?P<inst>instance\('(?P<iname>[^']*)'\))?(?P<cur>current\(\)/)?(?P<body>(?:\.\./)*(?:\.\.)?|)(?P<rest>(?:/?[\w.\-]+)(?:/[\w.\-]+)*)?$"
+)
+
+
+def parse_ref_output(out: str, rootname: str):
+    """' ../../a/b ' / ' /data/a ' / " instance('__last-saved')/data/a " -> envelope record, or None."""
+    t = out.strip()
+    e = {"abs": False, "up": 0, "path": [], "cur": False, "inst": ""}
+    m = re.match(r"^instance\('([^']*)'\)", t)
+    if m:
+        e["inst"] = m.group(1)
+        t = t[m.end():]
+    if t.startswith("current()/"):
+        e["cur"] = True
+        t = t[len("current()/"):]
+    if t.startswith("/"):
+        parts = t[1:].split("/")
+        if not parts or parts[0] != rootname or not all(re.fullmatch(r"[\w.\-]+", x) for x in parts):
+            return None
+        e["abs"] = True
+        e["path"] = parts[1:]
+        return e
+    parts = t.split("/")
+    up = 0
+    while parts and parts[0] == "..":
+        up += 1
+        parts = parts[1:]
+    if up == 0 or not all(re.fullmatch(r"[\w.\-]+", x) for x in parts):
+        return None
+    e["up"] = up
+    e["path"] = parts
+    return e
+
+
+def _spans(src, opener):
+    out = []
+    i = src.find(opener)
+    while i != -1:
+        depth = 0
+        j = i + len(opener) - 1
+        end = len(src)
+        for k in range(j, len(src)):
+            if src[k] == "(":
+                depth += 1
+            elif src[k] == ")":
+                depth -= 1
+                if depth == 0:
+                    end = k + 1
+                    break
+        out.append((i, end))
+        i = src.find(opener, i + 1)
+    return out
+
+
+def ref_position_facts(src: str, pos: int):
+    in_ir = any(a <= pos < b for a, b in _spans(src, "indexed-repeat("))
+    in_pred = False
+    if "instance(" in src:
+        for m in re.finditer(r"\[([^\]]+)\]", src):
+            if m.start() <= pos < m.end():
+                in_pred = True
+    return in_ir, in_pred
+
+
 def control_attrs(row, qtype, control):
     """Attributes the row's cells dictate for its body control: [name, value, literal?]."""
     out = {}
@@ -270,7 +363,7 @@ def control_attrs(row, qtype, control):
 def tla_row(r: dict) -> dict:
     """Only the fields the TLA+ record has (uniform record shape)."""
     keys = ("k", "ct", "name", "lname", "hasname", "nameok", "type", "count", "tl", "lh", "media", "list",
-            "listkind", "other", "filt", "hascalc", "dyn", "trig", "warns", "cattrs", "tlapp")
+            "listkind", "other", "filt", "hascalc", "dyn", "trig", "warns", "cattrs", "tlapp", "refs")
     out = {k: r[k] for k in keys}
     if r["k"] == "begin" and r["tl"]:
         out["lh"] = bool(r.get("lhkeys"))
